@@ -360,8 +360,15 @@ func (r *c03Runner) fullFields() [2]*atomicFloat64 {
 // prepareScan places lastFull*Update next to the wall clock so that their age is the virtual age;
 // returns the values written. Stays clear of the wall clock second boundary.
 func (r *c03Runner) prepareScan(vnow int) [2]float64 {
+	// only an age next to MinFullScanInterval depends on the wall clock second: stay in the first half of it then
+	limit := 0.97
+	for i := range r.vlf {
+		if age := vnow - r.vlf[i]; r.vlf[i] != 0 && age >= MinFullScanInterval-2 && age <= MinFullScanInterval+2 {
+			limit = 0.5
+		}
+	}
 	for {
-		if frac := currentUnixTime() - math.Floor(currentUnixTime()); frac < 0.80 {
+		if frac := currentUnixTime() - math.Floor(currentUnixTime()); frac < limit {
 			break
 		}
 		time.Sleep(20 * time.Millisecond)
@@ -454,6 +461,7 @@ func (r *c03Runner) mutate(ev *c03Event) {
 
 func (r *c03Runner) step(ctx context.Context, ev *c03Event) {
 	peer := r.peer
+	r.backend.SetMode(vModeOK)
 	switch ev.Kind {
 	case "mut":
 		r.mutate(ev)
@@ -534,6 +542,9 @@ func (r *c03Runner) step(ctx context.Context, ev *c03Event) {
 			r.backend.FailAfter(ev.N-1, vModeRefuse)
 		}
 		err := peer.periodicTimeperiodsUpdate(ctx, data)
+		if ev.N > 0 {
+			r.settle()
+		}
 		r.backend.SetMode(vModeOK)
 		if (err != nil) != (ev.N > 0) {
 			r.note("tprefresh: error %v with n=%d", err, ev.N)
@@ -543,8 +554,18 @@ func (r *c03Runner) step(ctx context.Context, ev *c03Event) {
 	}
 }
 
+// c03Settle: the scripted backend switches to "refuse" from its connection goroutine after the last answered
+// reply; give that a moment before the mode is reset, so that it cannot land in the next step.
+func (r *c03Runner) settle() {
+	time.Sleep(3 * time.Millisecond)
+	r.backend.SetMode(vModeOK)
+}
+
 func (r *c03Runner) finishAbort(ab string, expect, before int, err error) {
 	got := r.backend.QueryCount() - before
+	if ab != "" {
+		r.settle()
+	}
 	r.backend.SetMode(vModeOK)
 	if ab == "" {
 		if err != nil {
